@@ -12,6 +12,37 @@ os.makedirs(env["HOME"], exist_ok=True)
 def run(cmd, **kw):
     return subprocess.run(cmd, shell=True, capture_output=True, text=True, env=env, cwd=wt, **kw)
 run("git checkout -- src")
+benign = var == "g"  # behaviour-preserving refactor: no demo of its own; the sibling demos e and f must still pass with it
+if benign:
+    ap = run(f"git apply {seed}/patch.diff")
+    if ap.returncode != 0:
+        print("patch does not apply", ap.stderr); sys.exit(2)
+    demos = {}
+    for sib in ("e", "f"):
+        if os.path.exists(f"{wt}/_seed/{sib}/demo.py"):
+            demos[sib] = run(f"/venv/bin/python {wt}/_seed/{sib}/demo.py", timeout=900).returncode
+    junit = f"/tmp/junit_{pid}{var}.xml"
+    run(f"/venv/bin/python -m pytest -q -p no:cacheprovider --timeout=900 --continue-on-collection-errors --junitxml={junit} > /dev/null 2>&1", timeout=1800)
+    c = subprocess.run(f"python3 /verif/tools/cmp_baseline.py {junit}", shell=True, capture_output=True, text=True, cwd="/")
+    suite = c.stdout.strip().split("\n")[0] + (" OK" if c.returncode == 0 else " MISSING-BASELINE-TESTS")
+    run("git checkout -- src")
+    shutil.rmtree(env["HOME"], ignore_errors=True)
+    ok = suite.endswith("OK") and all(v == 0 for v in demos.values())
+    out = f"/verif/seeded/{pid}_{var}"
+    os.makedirs(out, exist_ok=True)
+    shutil.copy(f"{seed}/patch.diff", out)
+    notes = open(f"{seed}/notes.md").read() if os.path.exists(f"{seed}/notes.md") else ""
+    open(f"{out}/notes.md", "w").write(notes)
+    nlines = sum(1 for l in open(f"{seed}/patch.diff") if l[:1] in "+-" and l[:3] not in ("+++", "---"))
+    meta = {"property": pid, "variant": var, "kind": "behaviour-preserving refactor (the check must stay silent)",
+            "origin": "independent sub-agent given only the property text and a scratch worktree",
+            "needs_to_manifest": notes[:1500], "changed_lines": nlines,
+            "confirmed": {"sibling_demos_with_patch_rc": demos, "test_suite_with_patch": suite, "ok": ok,
+                          "ran": ["git apply patch.diff", "demo.py of the sibling seeds e and f", "full pytest suite with patch vs BASELINE stable_pass", "git checkout -- src"]},
+            "detected_by": None}
+    json.dump(meta, open(f"{out}/meta.json", "w"), indent=1)
+    print(pid, var, "benign: sibling demos", demos, "suite:", suite, "changed lines", nlines, "OK" if ok else "NOT-CONFIRMED")
+    sys.exit(0)
 r0 = run(f"/venv/bin/python {seed}/demo.py", timeout=900)
 ap = run(f"git apply {seed}/patch.diff")
 if ap.returncode != 0:
